@@ -22,7 +22,7 @@ CASES = [
     m('marker-two-groups', 'R1', 'whole-match-captured', SE, "DEFAULT_SECTION_PATTERN = r'^(##### Part .+)$'", "DEFAULT_SECTION_PATTERN = r'^(##### Part (.+))$'"),
     m('split-without-multiline', 'R1', 'separate_into_sections:split', SE, "re.split(pattern, report.submission.main_code, flags=re.MULTILINE)", "re.split(pattern, report.submission.main_code)"),
     m('split-stripped-code', 'R1', 'separate_into_sections:split', SE, "re.split(pattern, report.submission.main_code, flags=re.MULTILINE)", "re.split(pattern, report.submission.main_code.strip(), flags=re.MULTILINE)"),
-    m('tifa-locate-without-offset', 'R2', 'tifa:locate', TC, "        return Location(node.lineno+self.line_offset, col=node.col_offset)", "        return Location(node.lineno, col=node.col_offset)"),
+    m('tifa-locate-without-offset', 'R2', 'tifa:line_offset-source', TC, "        return Location(node.lineno+self.line_offset, col=node.col_offset)", "        return Location(node.lineno, col=node.col_offset)"),
     m('frames-not-shifted', 'R2', '_fix_frame_line', UX, "            frame.lineno += self.line_offsets[frame.filename]\n", ""),
     m('revert-fix-line-number', 'R2', 'traceback:line_number', UX, "        self.line_number = last_frame[1] + line_offsets.get(last_frame[0], 0)", "        self.line_number = last_frame[1]"),
     m('sandbox-empty-offsets', 'R2', 'sandbox:passes-offsets', SB, "            line_offsets = self.report.submission.line_offsets\n", ""),
